@@ -25,9 +25,13 @@ SPARSE_Q = [
     {"variant": "hosted", "grain": 128, "gtes": 512, "K": 256, "full": False, "max_len": 1 << 20, "sel": 8},
     {"variant": "footer", "grain": 128, "gtes": 512, "K": 16640, "full": False, "max_len": 1 << 20, "sel": 40},  # 130 GD entries, > 4 GiB
     {"variant": "stream", "grain": 128, "gtes": 512, "K": 256, "full": False, "lba": False, "max_len": 1 << 20, "sel": 16},
+    # sector numbers with the top bit of the 32-bit entry set (grains 1.5 TiB into the file; with a footer the tables too)
+    {"variant": "hosted", "grain": 8, "gtes": 4, "K": 2, "full": False, "data_base_min": 0xC0000000 + 24, "sel": 6},
+    {"variant": "footer", "grain": 8, "gtes": 4, "K": 2, "full": False, "data_base_min": 0xFFFF0000, "sel": 6},
 ]
 COWD_Q = [
     {"variant": "cowd", "grain": 1, "gtes": 4096, "K": 2048, "full": False, "max_len": 1 << 20, "sel": 2},
+    {"variant": "cowd", "grain": 8, "gtes": 4096, "K": 2048, "full": False, "max_len": 1 << 20, "data_base_min": 0x80000000, "sel": 4},
 ]
 SE_Q = [
     {"variant": "se", "grain": 8, "gt_sectors": 1, "K": 32, "full": True, "sel": 3},
@@ -85,7 +89,8 @@ def build(img, prof, cap_bytes=None):
         compressed = v == "stream"
         vf, info = enc_vmdk.build_hosted(ents, present, capacity=capacity, grain=grain, gtes=gtes, footer=(v != "hosted"),
                                          compressed=compressed, lba=prof.get("lba", True), slot_mult=prof.get("slot_mult", 1),
-                                         level=prof.get("level", 6), max_pos=(P + 1) * K, tight=prof.get("tight", False))
+                                         level=prof.get("level", 6), max_pos=(P + 1) * K, tight=prof.get("tight", False),
+                                         data_base_min=prof.get("data_base_min", 0))
         if compressed:
             def tokb(tok, a, n, cell=cell, gbytes=gbytes):  # noqa: E306
                 if tok["k"] != "D":
@@ -100,7 +105,7 @@ def build(img, prof, cap_bytes=None):
                     n -= t
                 return b"".join(out)
     elif v == "cowd":
-        vf, info = enc_vmdk.build_cowd(ents, present, capacity=capacity, grain=grain, max_pos=(P + 1) * K)
+        vf, info = enc_vmdk.build_cowd(ents, present, capacity=capacity, grain=grain, max_pos=(P + 1) * K, data_base_min=prof.get("data_base_min", 0))
     else:
         vf, info = enc_vmdk.build_sesparse(ents, present, capacity=capacity, grain=grain, gt_sectors=prof["gt_sectors"],
                                            max_pos=(P + 1) * K, pos_base=prof.get("pos_base", 0))
